@@ -1,10 +1,24 @@
-"""Exception handlers on the path of a model call -> Gallina table.
+"""Every construct that can drop an exception, on every path from a public entry point to a model call
+-> Gallina tables.
 
-For every function through which a model's exception travels to the caller, list the `except`
-handlers that could intercept it: (function, adds a note, ends in a bare `raise`).  Properties/C09.v
-proves over this table that every handler re-raises the same exception and that the three
-note-adding handlers of the model exist.  Also: does run_evolve call `wait_check()` after `evolve()`.
-Fails closed when a function is missing or a construct that can swallow exceptions appears.
+For each function through which a model's exception travels to the caller (listed in FUNCS; the paths
+themselves - entry point x running mode -> list of functions - are `all_entry_paths` of Model/Failure.v)
+the translator writes
+
+  src_constructs   (function, [shape]):  SExcept scope adds_note reraises  for every `except` handler
+                                         SFinally leaves                   for every `finally` block: does it contain a
+                                                                           return / break / continue that leaves it
+                                         SWith suppresses                  for every `with` item (contextlib.suppress = true;
+                                                                           a known non-suppressing manager = false;
+                                                                           anything else: fail closed)
+  src_refs         (function, [functions of FUNCS it refers to]): call edges of the paths
+  src_handlers     the round-1 table (function, adds a note, ends in a bare `raise`)
+  src_wait_check / src_wait_check_old    run_evolve calls wait_check() after evolve()  (new / deprecated archipelago)
+
+Properties/C09.v proves over these tables (vm_compute) that every path of every entry point exists, is
+connected, and has no construct that can drop an exception (`source_ok`), that the three note-adding
+handlers exist, catch every Exception and re-raise, and instantiates the generic propagation theorems with them.
+Fails closed when a function is missing or a shape is not one of those listed here.
 """
 from __future__ import annotations
 
@@ -13,31 +27,86 @@ from pathlib import Path
 
 from harness.core import TranslationError
 
-from .common import HEADER, fail, find_func, parse
+from .common import HEADER, fail, parse
 
-FUNCS = [
-    ("pyxel/pipelines/model_function.py", "ModelFunction", "__call__"),
-    ("pyxel/pipelines/model_group.py", "ModelGroup", "run"),
-    ("pyxel/pipelines/processor.py", "Processor", "run_pipeline"),
-    ("pyxel/exposure/exposure.py", None, "run_pipeline"),
-    ("pyxel/exposure/exposure.py", "Exposure", "run_exposure"),
-    ("pyxel/observation/observation.py", "Observation", "run_pipelines"),
-    ("pyxel/observation/observation.py", "Observation", "_run_single_pipeline"),
-    ("pyxel/observation/observation_dask.py", None, "_run_pipelines_array_to_datatree"),
-    ("pyxel/observation/observation_dask.py", None, "_run_pipelines_tuple_to_array"),
-    ("pyxel/observation/observation_dask.py", None, "run_pipelines_with_dask"),
-    ("pyxel/calibration/fitting_datatree.py", "ModelFittingDataTree", "fitness"),
-    ("pyxel/calibration/fitting_datatree.py", "ModelFittingDataTree", "_apply_parameters"),
-    ("pyxel/calibration/archipelago_datatree.py", "ArchipelagoDataTree", "run_evolve"),
-    ("pyxel/calibration/archipelago_datatree.py", "ArchipelagoDataTree", "_build"),
-    ("pyxel/calibration/calibration.py", "Calibration", "run_calibration"),
-    ("pyxel/run.py", None, "run_mode"),
-    ("pyxel/run.py", None, "_run_exposure_mode"),
-    ("pyxel/run.py", None, "_run_calibration_mode"),
-]
+# qualified name (as used in Model/Failure.v) -> (file, class, function)
+FUNCS = {
+    "ModelFunction.__call__": ("pyxel/pipelines/model_function.py", "ModelFunction", "__call__"),
+    "ModelGroup.run": ("pyxel/pipelines/model_group.py", "ModelGroup", "run"),
+    "Processor.run_pipeline": ("pyxel/pipelines/processor.py", "Processor", "run_pipeline"),
+    "randomize.set_random_seed": ("pyxel/util/randomize.py", None, "set_random_seed"),
+    "exposure.run_pipeline": ("pyxel/exposure/exposure.py", None, "run_pipeline"),
+    "exposure._run_exposure_pipeline_deprecated": ("pyxel/exposure/exposure.py", None, "_run_exposure_pipeline_deprecated"),
+    "Exposure.run_exposure": ("pyxel/exposure/exposure.py", "Exposure", "run_exposure"),
+    "Exposure._run_exposure_deprecated": ("pyxel/exposure/exposure.py", "Exposure", "_run_exposure_deprecated"),
+    "Observation.run_pipelines": ("pyxel/observation/observation.py", "Observation", "run_pipelines"),
+    "Observation._run_single_pipeline": ("pyxel/observation/observation.py", "Observation", "_run_single_pipeline"),
+    "observation_dask._run_pipelines_array_to_datatree":
+        ("pyxel/observation/observation_dask.py", None, "_run_pipelines_array_to_datatree"),
+    "observation_dask._run_pipelines_tuple_to_array":
+        ("pyxel/observation/observation_dask.py", None, "_run_pipelines_tuple_to_array"),
+    "observation_dask.run_pipelines_with_dask": ("pyxel/observation/observation_dask.py", None, "run_pipelines_with_dask"),
+    "deprecated._run_observation_deprecated": ("pyxel/observation/deprecated.py", None, "_run_observation_deprecated"),
+    "deprecated._apply_exposure_pipeline_product":
+        ("pyxel/observation/deprecated.py", None, "_apply_exposure_pipeline_product"),
+    "deprecated._apply_exposure_pipeline_sequential":
+        ("pyxel/observation/deprecated.py", None, "_apply_exposure_pipeline_sequential"),
+    "deprecated._apply_exposure_pipeline_custom": ("pyxel/observation/deprecated.py", None, "_apply_exposure_pipeline_custom"),
+    "ModelFittingDataTree.fitness": ("pyxel/calibration/fitting_datatree.py", "ModelFittingDataTree", "fitness"),
+    "ModelFittingDataTree._apply_parameters":
+        ("pyxel/calibration/fitting_datatree.py", "ModelFittingDataTree", "_apply_parameters"),
+    "ModelFittingDataTree.apply_parameters_to_processors":
+        ("pyxel/calibration/fitting_datatree.py", "ModelFittingDataTree", "apply_parameters_to_processors"),
+    "ModelFitting.fitness": ("pyxel/calibration/fitting.py", "ModelFitting", "fitness"),
+    "ArchipelagoDataTree.__init__": ("pyxel/calibration/archipelago_datatree.py", "ArchipelagoDataTree", "__init__"),
+    "ArchipelagoDataTree._build": ("pyxel/calibration/archipelago_datatree.py", "ArchipelagoDataTree", "_build"),
+    "ArchipelagoDataTree.run_evolve": ("pyxel/calibration/archipelago_datatree.py", "ArchipelagoDataTree", "run_evolve"),
+    "MyArchipelago.__init__": ("pyxel/calibration/archipelago.py", "MyArchipelago", "__init__"),
+    "MyArchipelago._build": ("pyxel/calibration/archipelago.py", "MyArchipelago", "_build"),
+    "MyArchipelago.run_evolve": ("pyxel/calibration/archipelago.py", "MyArchipelago", "run_evolve"),
+    "DaskBFE.__call__": ("pyxel/calibration/user_defined.py", "DaskBFE", "__call__"),
+    "DaskIsland.run_evolve": ("pyxel/calibration/user_defined.py", "DaskIsland", "run_evolve"),
+    "ProblemSerializable.fitness": ("pyxel/calibration/user_defined.py", "ProblemSerializable", "fitness"),
+    "AlgoSerializable.evolve": ("pyxel/calibration/user_defined.py", "AlgoSerializable", "evolve"),
+    "Calibration.run_calibration": ("pyxel/calibration/calibration.py", "Calibration", "run_calibration"),
+    "Calibration._run_calibration_deprecated": ("pyxel/calibration/calibration.py", "Calibration", "_run_calibration_deprecated"),
+    "run.run_mode": ("pyxel/run.py", None, "run_mode"),
+    "run._run_exposure_mode": ("pyxel/run.py", None, "_run_exposure_mode"),
+    "run._run_calibration_mode": ("pyxel/run.py", None, "_run_calibration_mode"),
+    "run.run": ("pyxel/run.py", None, "run"),
+    "run.run_config": ("pyxel/run.py", None, "run_config"),
+    "run.exposure_mode": ("pyxel/run.py", None, "exposure_mode"),
+    "run.observation_mode": ("pyxel/run.py", None, "observation_mode"),
+    "run.calibration_mode": ("pyxel/run.py", None, "calibration_mode"),
+}
 
 # handlers for these classes cannot intercept a model's exception (import guards)
 HARMLESS = {"ModuleNotFoundError", "ImportError"}
+
+# context managers whose __exit__ never suppresses (standard library, numpy, dask, tqdm, xarray, pyxel's
+# generator-based set_random_seed - whose own body is checked as a function of the paths)
+WITH_OK = {
+    "open", "TemporaryDirectory", "NamedTemporaryFile", "TemporaryFile", "SpooledTemporaryFile",
+    "ThreadPoolExecutor", "ProcessPoolExecutor", "Pool", "tqdm", "trange", "catch_warnings", "errstate",
+    "nullcontext", "redirect_stdout", "redirect_stderr", "chdir", "set", "set_options", "SetOptions",
+    "printoptions", "localcontext", "Lock", "RLock", "Semaphore", "closing", "ProgressBar", "Client",
+    "LocalCluster", "performance_report", "set_random_seed", "logging_redirect_tqdm", "Timer", "timer",
+    "ZipFile", "File", "annotate", "config", "freeze_time",
+}
+WITH_SUPPRESS = {"suppress"}
+
+
+def _find(tree: ast.Module, cls: str | None, name: str) -> ast.FunctionDef:
+    scope: ast.AST = tree
+    if cls is not None:
+        cands = [n for n in ast.walk(tree) if isinstance(n, ast.ClassDef) and n.name == cls]
+        if len(cands) != 1:
+            raise TranslationError(f"class {cls}: found {len(cands)}")
+        scope = cands[0]
+    cands = [n for n in scope.body if isinstance(n, ast.FunctionDef) and n.name == name]  # type: ignore[attr-defined]
+    if len(cands) != 1:
+        raise TranslationError(f"function {cls + '.' if cls else ''}{name}: found {len(cands)}")
+    return cands[0]
 
 
 def _catches(h: ast.ExceptHandler) -> list[str]:
@@ -46,6 +115,15 @@ def _catches(h: ast.ExceptHandler) -> list[str]:
     if isinstance(h.type, ast.Tuple):
         return [ast.unparse(e) for e in h.type.elts]
     return [ast.unparse(h.type)]
+
+
+def _scope(h: ast.ExceptHandler) -> str:
+    names = {c.split(".")[-1] for c in _catches(h)}
+    if "BaseException" in names:
+        return "ScAll"
+    if "Exception" in names:
+        return "ScException"
+    return "ScSome"
 
 
 def _adds_note(h: ast.ExceptHandler) -> bool:
@@ -68,48 +146,162 @@ def _bare_reraise(h: ast.ExceptHandler) -> bool:
     return True
 
 
-def rows_of(repo: Path):
-    rows, wait_check = [], False
-    for rel, cls, name in FUNCS:
-        tree = parse(repo, rel)
-        fn = find_func(tree, name, cls)
-        qual = f"{cls}.{name}" if cls else f"{Path(rel).stem}.{name}"
-        for n in ast.walk(fn):
-            if isinstance(n, ast.Try):
-                for h in n.handlers:
-                    if set(_catches(h)) <= HARMLESS:
-                        continue
-                    rows.append((qual, _adds_note(h), _bare_reraise(h)))
-            if isinstance(n, (ast.With, ast.AsyncWith)):
-                for it in n.items:
-                    if "suppress" in ast.unparse(it.context_expr):
-                        rows.append((qual, False, False))
-            if hasattr(ast, "TryStar") and isinstance(n, ast.TryStar):
-                fail(n, "except* is not handled")
-        if name == "run_evolve":
-            # evolve() and wait_check() in the same loop body, in this order
-            for loop in [x for x in ast.walk(fn) if isinstance(x, ast.For)]:
-                calls = [c.func.attr for st in loop.body for c in ast.walk(st)
-                         if isinstance(c, ast.Call) and isinstance(c.func, ast.Attribute)
-                         and c.func.attr in ("evolve", "wait_check")]
-                if "evolve" in calls:
-                    wait_check = "wait_check" in calls and calls.index("evolve") < calls.index("wait_check")
-    return rows, wait_check
+def _leaves(stmts: list[ast.stmt], in_loop: bool = False) -> bool:
+    """Does this block (a `finally` body) contain a return, or a break/continue that leaves it?
+    Nested function and class definitions are other scopes; break/continue inside a loop that is itself
+    inside the block stay inside."""
+    for st in stmts:
+        if isinstance(st, (ast.FunctionDef, ast.AsyncFunctionDef, ast.ClassDef, ast.Lambda)):
+            continue
+        if isinstance(st, ast.Return):
+            return True
+        if isinstance(st, (ast.Break, ast.Continue)) and not in_loop:
+            return True
+        loop = in_loop or isinstance(st, (ast.For, ast.AsyncFor, ast.While))
+        for field in ("body", "orelse", "finalbody"):
+            sub = getattr(st, field, None)
+            if isinstance(sub, list) and sub and isinstance(sub[0], ast.stmt):
+                # the `else` of a loop is not inside the loop
+                if _leaves(sub, in_loop if (field == "orelse" and isinstance(st, (ast.For, ast.AsyncFor, ast.While)))
+                           else loop):
+                    return True
+        for h in getattr(st, "handlers", []) or []:
+            if _leaves(h.body, in_loop):
+                return True
+        if hasattr(ast, "Match") and isinstance(st, ast.Match):
+            for case in st.cases:
+                if _leaves(case.body, in_loop):
+                    return True
+    return False
 
 
-def render(rows, wait_check) -> str:
-    def b(x):
-        return "true" if x else "false"
-    body = "; ".join(f'("{q}", {b(a)}, {b(r)})' for q, a, r in rows)
-    return (HEADER + "From Coq Require Import List String Bool.\nImport ListNotations.\nOpen Scope string_scope.\n"
-            f"Definition src_handlers : list (string * bool * bool) := [{body}]%list.\n"
-            f"Definition src_wait_check : bool := {b(wait_check)}.\n")
+def _manager_name(e: ast.expr) -> str:
+    if isinstance(e, ast.Call):
+        e = e.func
+    if isinstance(e, ast.Attribute):
+        return e.attr
+    if isinstance(e, ast.Name):
+        return e.id
+    return ""
+
+
+def _only_imports(body: list[ast.stmt]) -> bool:
+    return bool(body) and all(isinstance(s, (ast.Import, ast.ImportFrom)) for s in body)
+
+
+def shapes_of(fn: ast.FunctionDef, qual: str):
+    """([shape text], [round-1 handler rows]) of one function (nested functions included)."""
+    shapes, rows = [], []
+    for n in ast.walk(fn):
+        if hasattr(ast, "TryStar") and isinstance(n, ast.TryStar):
+            fail(n, "except* is not handled")
+        if isinstance(n, ast.Try):
+            for h in n.handlers:
+                if set(c.split(".")[-1] for c in _catches(h)) <= HARMLESS or _only_imports(n.body):
+                    continue
+                a, r = _adds_note(h), _bare_reraise(h)
+                shapes.append(f"SExcept {_scope(h)} {b(a)} {b(r)}")
+                rows.append((qual, a, r))
+            if n.finalbody:
+                shapes.append(f"SFinally {b(_leaves(n.finalbody))}")
+        if isinstance(n, (ast.With, ast.AsyncWith)):
+            for it in n.items:
+                name = _manager_name(it.context_expr)
+                if name in WITH_SUPPRESS:
+                    shapes.append("SWith true")
+                    rows.append((qual, False, False))
+                elif name in WITH_OK or name.lower().endswith("lock"):
+                    shapes.append("SWith false")
+                else:
+                    fail(n, f"{qual}: context manager not known to propagate exceptions")
+    return shapes, rows
+
+
+def _refs(fn: ast.FunctionDef) -> set[str]:
+    out = set()
+    for n in ast.walk(fn):
+        if isinstance(n, ast.Name):
+            out.add(n.id)
+        elif isinstance(n, ast.Attribute):
+            out.add(n.attr)
+    return out
+
+
+def _simple(qual: str) -> str | None:
+    left, right = qual.rsplit(".", 1)
+    if right == "__init__":
+        return left
+    if right == "__call__":
+        return None
+    return right
+
+
+def _wait_check(fn: ast.FunctionDef) -> bool:
+    """evolve() and wait_check() in the same loop body, in this order."""
+    ok = False
+    for loop in [x for x in ast.walk(fn) if isinstance(x, ast.For)]:
+        calls = [c.func.attr for st in loop.body for c in ast.walk(st)
+                 if isinstance(c, ast.Call) and isinstance(c.func, ast.Attribute)
+                 and c.func.attr in ("evolve", "wait_check")]
+        if "evolve" in calls:
+            ok = "wait_check" in calls and calls.index("evolve") < calls.index("wait_check")
+    return ok
+
+
+def b(x) -> str:
+    return "true" if x else "false"
+
+
+def tables_of(repo: Path):
+    trees: dict[str, ast.Module] = {}
+    cons, refs, rows, wc = [], [], [], {}
+    for qual, (rel, cls, name) in FUNCS.items():
+        if rel not in trees:
+            trees[rel] = parse(repo, rel)
+        fn = _find(trees[rel], cls, name)
+        shapes, rws = shapes_of(fn, qual)
+        cons.append((qual, shapes))
+        rows += rws
+        names = _refs(fn)
+        refs.append((qual, [g for g in FUNCS if g != qual and _simple(g) is not None and _simple(g) in names]))
+        if name == "run_evolve" and cls in ("ArchipelagoDataTree", "MyArchipelago"):
+            wc[cls] = _wait_check(fn)
+    return cons, refs, rows, wc.get("ArchipelagoDataTree", False), wc.get("MyArchipelago", False)
+
+
+def render(cons, refs, rows, wc, wc_old) -> str:
+    def strs(xs):
+        return "[" + "; ".join(f'"{x}"' for x in xs) + "]"
+    c_body = ";\n   ".join(f'("{q}", [{"; ".join(ss)}])' for q, ss in cons)
+    r_body = ";\n   ".join(f'("{q}", {strs(gs)})' for q, gs in refs)
+    h_body = "; ".join(f'("{q}", {b(a)}, {b(r)})' for q, a, r in rows)
+    return (HEADER + "From Coq Require Import List String Bool.\nFrom PyxelV Require Import Model.Failure.\n"
+            "Import ListNotations.\nOpen Scope string_scope.\nOpen Scope list_scope.\n"
+            f"Definition src_constructs : list (string * list shape) :=\n  [{c_body}].\n"
+            f"Definition src_refs : list (string * list string) :=\n  [{r_body}].\n"
+            f"Definition src_handlers : list (string * bool * bool) := [{h_body}].\n"
+            f"Definition src_wait_check : bool := {b(wc)}.\n"
+            f"Definition src_wait_check_old : bool := {b(wc_old)}.\n")
 
 
 def translate(repo: Path) -> str:
-    rows, wc = rows_of(repo)
-    return render(rows, wc)
+    return render(*tables_of(repo))
 
 
-FALLBACK = render([("ModelGroup.run", True, True), ("Observation._run_single_pipeline", True, True),
-                   ("ModelFittingDataTree.fitness", True, True)], True)
+def _fallback() -> str:
+    """The tables of the unchanged tree (kept next to this module; regenerate with
+    `python -m translator.c09 --write-fallback` after a reviewed change of the anchored code)."""
+    return (Path(__file__).with_name("c09_fallback.txt")).read_text()
+
+
+FALLBACK = _fallback()
+
+
+if __name__ == "__main__":
+    import sys
+
+    text = translate(Path("/repo"))
+    if "--write-fallback" in sys.argv:
+        Path(__file__).with_name("c09_fallback.txt").write_text(text)
+    else:
+        print(text)
